@@ -435,7 +435,7 @@ def drive(r, spec, respond="random", faults=None, max_steps=80):
                     break
         # after the script: the connection goes down (vncdo closed it, so the transport reports a clean close)
         flat = [t for e in res["events"] for t in e[1]]
-        if "close" in flat and not any(e[0].startswith("lose") for e in res["events"]) and v.reactor.stopped_at is None:
+        if "close" in flat and not any(e[0].startswith("lose") for e in res["events"]) and v.reactor.stopped_at is None and not getattr(spec, "close_hangs", False):
             # normally a clean close; the peer may also reset while the client's close is still in progress (unsent data is lost)
             clean = not (r.random() < getattr(spec, "close_reset", 0))
             spec.events.append(("lose", clean))
